@@ -602,9 +602,13 @@ def run(ctx: Ctx) -> int:
             continue
         ops_done = []
         bad_h = None
+        try:
+            rt_ok = make(str(c0)) == c0      # texts whose round trip is altered already (recorded classes) are not asked to round-trip here
+        except Exception:
+            rt_ok = False
         for step in range(4):
             _ = str(c), repr(c)          # print before the mutation
-            op = ["pop", "pop0", "iadd", "imul", "append"][int(hist_rng.integers(0, 5))]
+            op = ["pop", "pop0", "iadd", "imul", "append", "append_shift"][int(hist_rng.integers(0, 6))]
             try:
                 if op == "pop" and len(c) > 1:
                     c.pop()
@@ -616,6 +620,8 @@ def run(ctx: Ctx) -> int:
                     c *= 2
                 elif op == "append":
                     c.append_from_stim_program_text("U3(0.5, 0.25, -0.125) 0\nH 1")
+                elif op == "append_shift":
+                    c.append_from_stim_program_text("M 0\nSHIFT_COORDS(0, 1)\nQUBIT_COORDS(2, 3) 1\nDETECTOR(1, 1) rec[-1]\nT 1")
                 else:
                     continue
             except Exception:
@@ -625,6 +631,15 @@ def run(ctx: Ctx) -> int:
             ctx.count(("history", text, tuple(ops_done)), nontrivial=True, bucket="print-after-mutation")
             if str(c) != str(fresh) or repr(c) != repr(fresh):
                 bad_h = f"after str(c); {'; '.join(ops_done)}: str(c) = {str(c)!r} but the circuit now is {str(fresh)!r}"
+                break
+            if not rt_ok:
+                continue
+            try:
+                back = make(str(c))
+            except Exception:
+                continue
+            if back != c:
+                bad_h = f"after {'; '.join(ops_done)}: Circuit(str(c)) = {str(back._stim_circ)!r} but c = {str(c._stim_circ)!r}"
                 break
         if bad_h:
             ctx.violation("print-after-mutation:" + ops_done[-1], f"str()/repr() do not show the current circuit: {bad_h}",
@@ -901,9 +916,16 @@ def replay(ctx: Ctx, obj) -> int:
                 c *= 2
             elif op == "append":
                 c.append_from_stim_program_text("U3(0.5, 0.25, -0.125) 0\nH 1")
+            elif op == "append_shift":
+                c.append_from_stim_program_text("M 0\nSHIFT_COORDS(0, 1)\nQUBIT_COORDS(2, 3) 1\nDETECTOR(1, 1) rec[-1]\nT 1")
         fresh = tsim.Circuit.from_stim_program(c._stim_circ.copy())
         print("str(c):", repr(str(c)), "current circuit:", repr(str(fresh)))
-        return 0 if str(c) == str(fresh) and repr(c) == repr(fresh) else 1
+        ok_back = True
+        try:
+            ok_back = tsim.Circuit(str(c)) == c
+        except Exception:
+            pass
+        return 0 if str(c) == str(fresh) and repr(c) == repr(fresh) and ok_back else 1
     if kind == "expand":
         got = s2s(text)
         print("shorthand_to_stim:", repr(got), "wanted:", repr(r.get("want")))
